@@ -84,6 +84,21 @@ CLAIMS = {
             "and under free Go scheduling; TLC validates every recorded run. The defect found (lost matches when one input ends first) was repaired.",
             "Non-late, valid inputs; non-NULL keys. Hook JoinRecv (build tag verif) reports consumption in the join goroutine. Trusted: gate "
             "scheduler, TLC.", "TLA+ spec + TLC interleaving model + schedule-enforced replay on real joins + TLC trace validation", "DESIGN.md 6/C19"),
+    "C09": ("model_checking",
+            "Values.tla defines a bounded value universe U (90 values incl. NaN, signed zeros, infinities, Min/MaxInt64, zoned times, nested and "
+            "prefix-related composites) and the documented reference order; TLC first checks that the reference order is a total preorder. The harness "
+            "records the real Value.Compare for every ordered pair, Value.Equal, hash classes, and how many distinct values Distinct / hash group by / "
+            "btree group by / COUNT(DISTINCT) see in all pairs and seeded multisets; TLC evaluates reflexivity, antisymmetry, transitivity over all "
+            "triples, equal => same hash, agreement with the reference order and operator agreement on those observations.",
+            "NaN's position is not pinned. Universe is finite. Trusted: value mapping, TLC.", "TLA+ spec + TLC law evaluation over the observed comparison matrix of the real code",
+            "DESIGN.md 6/C09"),
+    "C10": ("model_checking",
+            "Types.tla defines the type universe TU (about 45 types incl. element-less lists, objects of different layouts, tuples, normalised and "
+            "hand-built unions) and an independent set-theoretic reading ValueInType over a value universe. The harness calls the real Is / Equals / "
+            "TypeSum / TypeIntersection / NonNullable on every ordered pair and Value.Type on every value; TLC evaluates the laws of the statement and "
+            "their set-theoretic reading on the observed results.",
+            "Finite universes. One recorded finding (TypeSum of different layouts).", "TLA+ spec + TLC law evaluation over observed results of the real type algebra",
+            "DESIGN.md 6/C10"),
 }
 
 NA_DEFAULT = "check not built yet (work in progress; will be claimed once its TLA+ spec and conformance harness are committed)"
